@@ -112,7 +112,8 @@ fn gen_case(c: &mut Choices) -> Case {
             if tags.iter().any(|(n, _): &(String, String)| n.starts_with(&name) || name.starts_with(n.as_str())) {
                 continue;
             }
-            let content = c.pick(&["INJECTED", "a\nb", "", "TXTPP#run echo no"]).to_string();
+            // contents may mention another tag's name: substituted text is never scanned again
+            let content = c.pick(&["INJECTED", "a\nb", "", "TXTPP#run echo no", "TAG", "see T1 and NAME", "<v>"]).to_string();
             tags.push((name, content));
         }
         let nb = c.below(3);
@@ -336,7 +337,7 @@ impl Prop for C16 {
         }
     }
     fn worker(&self, ctx: &mut WorkerCtx) {
-        let total = if ctx.quick { 60_000 } else { 1_000_000 };
+        let total = if ctx.quick { 200_000 } else { 5_000_000 };
         let n = ctx.share(total);
         ctx.drive(1, n, 120, &gen_case, &check, &reduce);
     }
